@@ -298,6 +298,18 @@ func (h *Handler) saltAuthToken(req *http.Request, remote string) (updatedReq *h
 	}
 	updatedReq.Header.Set("Authorization", "Bearer "+token)
 
+	// Remove the arvados_api_token cookie, which carries the
+	// original (unsalted) token, in case we end up forwarding
+	// the request. Other cookies are kept.
+	if cookies := updatedReq.Cookies(); len(cookies) > 0 {
+		updatedReq.Header.Del("Cookie")
+		for _, c := range cookies {
+			if c.Name != "arvados_api_token" {
+				updatedReq.AddCookie(c)
+			}
+		}
+	}
+
 	// Remove api_token=... from the query string, in case we
 	// end up forwarding the request.
 	if values, err := url.ParseQuery(updatedReq.URL.RawQuery); err != nil {
